@@ -210,6 +210,7 @@ def _run(case: dict, env: core.Env, fs: Any, r: random.Random) -> None:
         D, S = ctx[i]
         env.cover("op", op)
         fail: tuple | None = None  # (level, errno-or-None) when the statement must fail
+        runner = None  # set when the step goes through an API call rather than a statement
         on_ok = None  # model update + checks after success; returns False to stop the case
         after_tag = op
 
@@ -282,6 +283,22 @@ def _run(case: dict, env: core.Env, fs: Any, r: random.Random) -> None:
                     # the same name handed over as text
                     sql = f"INSERT INTO IDENTIFIER('{nsql}') (ID, M) VALUES ({marker_n[0]}, '{marker}')"
                     env.count("identifier_targets")
+                if not merge and not errno and kind == "table" and r.random() < 0.2:
+                    # the same row loaded with write_pandas, the name given by its table / schema / database arguments
+                    kw = {} if lvl == 0 else {"schema": _spell(r, sc)} if lvl == 1 else {"database": _spell(r, db), "schema": _spell(r, sc)}
+                    tname = _spell(r, nm)
+                    sql = f"write_pandas (conn, df[{marker_n[0]}, '{marker}'], {tname!r}, **{kw})"
+                    env.count("write_pandas_targets")
+
+                    def runner(c=c, kw=kw, tname=tname, n=marker_n[0], marker=marker, sql=sql):
+                        import pandas as pd
+
+                        import fakesnow.fakes as fakes
+                        try:
+                            res = fakes.write_pandas(c, pd.DataFrame({"ID": [n], "M": [marker]}), tname, **kw)
+                        except Exception as e:  # noqa: BLE001
+                            return {"sql": sql, "ok": False, "exc": core.exc_info(e)}
+                        return {"sql": sql, "ok": True, "rows": [(res[2],)]}
                 if merge:
                     sql = (f"MERGE INTO {nsql} t USING (SELECT {marker_n[0]} AS ID, '{marker}' AS M) s ON t.ID = s.ID "
                            "WHEN NOT MATCHED THEN INSERT (ID, M) VALUES (s.ID, s.M)")
@@ -385,7 +402,7 @@ def _run(case: dict, env: core.Env, fs: Any, r: random.Random) -> None:
             out = core.run_stmt(cur, sql)
             expect_fail(out, op, fail[0], fail[1], before, i)
         else:
-            out = core.run_stmt(cur, sql)
+            out = runner() if runner else core.run_stmt(cur, sql)
             last_out = out
             if not out["ok"]:
                 env.witness(f"C03/rejected/{op}/{out['exc']['cls']}", f"{sql} ctx={ctx[i]}: {out['exc']}")
